@@ -57,7 +57,7 @@ theorem chains_touch_only_members (xs : List Nat) (x : Nat) (hx : x ∉ xs) :
     are exactly the rows of the specification walk, appended in creation order to whatever population existed -/
 theorem typed_as_oal (c : TCtx) (env : Env) (sel : Option String) (hg : GenericFree c) (e : Expr) (p : Pop) :
     (buildExpr c env sel e p).2.r820 (buildExpr c env sel e p).1 = typeOf c env sel e ∧
-    (buildExpr c env sel e p).2.kind (buildExpr c env sel e p).1 = kindOf c env e ∧
+    (buildExpr c env sel e p).2.kind (buildExpr c env sel e p).1 = kindOf c env sel e ∧
     (buildExpr c env sel e p).2.vals = p.vals ++ walkExpr c env sel e :=
   mechanism_types c env sel hg e p
 
@@ -111,11 +111,23 @@ theorem typed_parameter (c : TCtx) (env : Env) (sel : Option String) (n : String
 theorem typed_attribute (c : TCtx) (env : Env) (sel : Option String) (h : Expr) (a : String) (ci : ClassInfo)
     (set : Bool) (hs : h ≠ .selected) (ht : c.classOfType (typeOf c env sel h) = some (ci, set)) :
     typeOf c env sel (.field h a) = ci.attrs.lookup a := by
-  cases h <;> simp_all [typeOf, attrTy, tyClass]
+  cases h <;> simp_all [typeOf, attrTy, tyClass, fieldRow]
 
 theorem typed_selected_attribute (c : TCtx) (env : Env) (kl a : String) (ci : ClassInfo)
     (hc : c.cls kl = some ci) : typeOf c env (some kl) (.field .selected a) = ci.attrs.lookup a := by
-  simp [typeOf, attrTy, selClass, hc]
+  simp [typeOf, attrTy, selClass, fieldRow, hc]
+
+/-- `<array>.length`: with no class behind the root (and the root not `selected`) the name `length` is the array
+    length, an integer -/
+theorem typed_array_length (c : TCtx) (env : Env) (sel : Option String) (n : String)
+    (h : tyClass c (typeOf c env sel (.var n)) = none) :
+    typeOf c env sel (.field (.var n) "length") = some "integer" ∧
+    kindOf c env sel (.field (.var n) "length") = "V_ALV" := by
+  constructor
+  · show attrTy (tyClass c (typeOf c env sel (.var n))) "length" = _
+    rw [h]; rfl
+  · show (fieldRow (tyClass c (typeOf c env sel (.var n))) "length").1 = _
+    rw [h]; rfl
 
 /-- a variable read has the type recorded for the variable … -/
 theorem typed_variable (c : TCtx) (env : Env) (sel : Option String) (n : String) (v : VarInfo)
@@ -153,7 +165,7 @@ theorem typed_selection_statements (c : TCtx) (env : Env) (v kl : String) :
 
 /-- the row the walk emits for an expression carries `typeOf` of that expression -/
 theorem walk_row_typed (c : TCtx) (env : Env) (sel : Option String) (e : Expr) :
-    (kindOf c env e, typeOf c env sel e) ∈ walkExpr c env sel e := by
+    (kindOf c env sel e, typeOf c env sel e) ∈ walkExpr c env sel e := by
   cases e <;> simp [walkExpr]
 
 /-! ### the symbol table: scopes, visibility, re-declaration
